@@ -61,11 +61,12 @@ async def run(
 
     # Start simulator processes
     processes: List[asyncio.Task[None]] = []
+    rt_start = perf_counter()
     for sim in world.sims.values():
-        # (sim_process sets this again when it starts, but the progress
-        # of all simulators is already advanced when the first of them
-        # has finished its first step.)
-        sim.rt_start = perf_counter()
+        # (The progress of all simulators is already advanced when the
+        # first of them has finished its first step, so they all need
+        # their rt_start before any sim_process starts.)
+        sim.rt_start = rt_start
         process = world.loop.create_task(
             sim_process(world, sim, until, rt_factor, rt_strict, lazy_stepping),
             name=f"Runner for {sim.sid}"
@@ -90,7 +91,12 @@ async def sim_process(
     Coroutine running the simulator *sim*.
     """
     sim.started = True
-    sim.rt_start = rt_start = perf_counter()
+    # (Usually, run() has already set the common rt_start. It must not
+    # change anymore, as the simulator's progress might have been
+    # advanced based on it already.)
+    rt_start = getattr(sim, 'rt_start', None)
+    if rt_start is None:
+        sim.rt_start = rt_start = perf_counter()
 
     try:
         advance_progress(sim, world)
